@@ -58,6 +58,7 @@ unsigned long measure_end() { g_measure = false; return g_measured; }
 unsigned long measured_so_far() { return g_measured; }
 }
 
+#ifndef VERIF_NO_ALLOC_REPLACE   // the TSan runtime brings its own operator new/delete
 void *operator new(size_t n) { return do_new(n, 16); }
 void *operator new[](size_t n) { return do_new(n, 16); }
 void *operator new(size_t n, const std::nothrow_t &) noexcept { try { return do_new(n, 16); } catch (...) { return nullptr; } }
@@ -78,3 +79,6 @@ void operator delete(void *p, size_t, std::align_val_t) noexcept { do_delete(p);
 void operator delete[](void *p, size_t, std::align_val_t) noexcept { do_delete(p); }
 void operator delete(void *p, std::align_val_t, const std::nothrow_t &) noexcept { do_delete(p); }
 void operator delete[](void *p, std::align_val_t, const std::nothrow_t &) noexcept { do_delete(p); }
+#else
+namespace { [[maybe_unused]] void *(*keep_new)(size_t, size_t) = &do_new; [[maybe_unused]] void (*keep_del)(void *) noexcept = &do_delete; }
+#endif
